@@ -247,6 +247,51 @@ def rand_sym(rng, m, den=8, lo=-2, hi=3):
     return W
 
 
+def rand_wvec(rng, ns):
+    """weight vector for the relative entropy INCLUDING the boundary values the validator accepts (any float): exact 0.0
+    entries (a schedule excluded from the fit), negative entries, the all-zero vector"""
+    r = rng.random()
+    if r < 0.06:
+        return [0.0] * ns
+    out = []
+    for _ in range(ns):
+        t = rng.random()
+        out.append(0.0 if t < 0.2 else (-dy(rng, 1, 8, 8) if t < 0.3 else dy(rng, 1, 40, 8)))
+    if r < 0.35 and all(x != 0.0 for x in out):
+        out[rng.randrange(ns)] = 0.0
+    return out
+
+
+def wlab(w):
+    """distribution bucket of a weight list (vector entries or flat matrices)"""
+    if w is None:
+        return "I"
+    if all(x == 0.0 for x in w):
+        return "wallzero"
+    return "w" + ("0" if any(x == 0.0 for x in w) else "") + ("neg" if any(x < 0.0 for x in w) else "")
+
+
+def rand_wmat(rng, m):
+    """symmetric weight matrix INCLUDING boundary values the validator accepts (any real symmetric matrix): the zero matrix,
+    singular rank-one matrices of either sign, diagonal matrices with zero entries; otherwise a generic indefinite one"""
+    t = rng.random()
+    if t < 0.12:
+        return [[0.0] * m for _ in range(m)]
+    if t < 0.24:
+        u = [dy(rng, -2, 2, 4) for _ in range(m)]; sgn = rng.choice([1.0, -1.0])
+        return [[sgn * u[x] * u[y] for y in range(m)] for x in range(m)]
+    if t < 0.32:
+        d = [rng.choice([0.0, 0.0, dy(rng, -2, 3, 8)]) for _ in range(m)]
+        return [[d[x] if x == y else 0.0 for y in range(m)] for x in range(m)]
+    return rand_sym(rng, m)
+
+
+def rand_wmats(rng, ns, m):
+    if rng.random() < 0.05:
+        return [0.0] * (ns * m * m)                      # every schedule weighted by the zero matrix
+    return [x for j in range(ns) for row in rand_wmat(rng, m) for x in row]
+
+
 # ================================================================== se_callables
 def se_loss_from_case(case):
     from quara.loss_function.weighted_probability_based_squared_error import WeightedProbabilityBasedSquaredError
@@ -317,7 +362,7 @@ def chk_se_callables(ctx, case):
     consistent = case.get("G") is None and case.get("HP") is None
     mv_, mg, mh = m_se_at(m, ns, mm, nv, fl(p), case["q"], fl(G), case.get("W"), fl(HP) if case.get("HP") is not None else None)
     ctx.count("se_callables", key=key, nontrivial=(ns * mm >= 4 and nv >= 2),
-              label="m%d-%s-%s" % (mm, "W" if case.get("W") is not None else "I", "affine" if consistent else "formula"))
+              label="m%d-%s-%s" % (mm, "I" if case.get("W") is None else ("Wzero" if not any(case["W"]) else "W"), "affine" if consistent else "formula"))
     sc = abs(float(mv_))
     if not rel_close(f0, mv_, TOL):
         ctx.violation("se_callables", site + ".value", "value", "value %r model %r" % (f0, float(mv_)), case)
@@ -346,7 +391,7 @@ def gen_se_callables(ctx, n):
              "v": [dy(rng, -2, 2, 16) for _ in range(nv)], "h": [dy(rng, -2, 2, 16) for _ in range(nv)],
              "W": None, "G": None, "HP": None, "via_setter": rng.random() < 0.3}
         if rng.random() < 0.7:
-            c["W"] = [x for j in range(ns) for row in rand_sym(rng, mm) for x in row]
+            c["W"] = rand_wmats(rng, ns, mm)
         r = rng.random()
         if r < 0.2:
             c["G"] = [dy(rng, -2, 2, 8) for _ in range(N * nv)]
@@ -596,7 +641,7 @@ def gen_step(rng, e, mode):
     q = [x for j in range(ns) for x in rand_q(rng, mm, nd[j])]
     st = {"mode": mode, "nd": nd, "q": q, "custom": None}
     if mode in (1, 5):
-        st["custom"] = [x for j in range(ns) for row in rand_sym(rng, mm) for x in row]
+        st["custom"] = rand_wmats(rng, ns, mm)
     return st
 
 
@@ -622,6 +667,9 @@ WITNESS_SE = [
     {"exp": "qpt-2-T", "plan": [2, 5, (2, "same", "same")]},       # setter in between, then the same object and the same data again
     {"exp": "qst-2-F", "plan": [1, 5, (1, "same", "new")]},        # custom, setter, the same custom option object again
     {"exp": "qmpt-2-T", "plan": [3, (3, "equal", "new")]},
+    # boundary values of the weight matrices: the zero matrix for one schedule / for all schedules
+    {"exp": "qst-2-T", "plan": [1], "zero": "one"},
+    {"exp": "povmt-3-T", "plan": [1, 5], "zero": "all"},
 ]
 
 
@@ -672,14 +720,20 @@ def gen_se_qt(ctx, n):
         plans.append({"exp": name, "plan": plan})
     for pl in plans:
         e = get_exp(pl["exp"])
-        c = {"exp": pl["exp"], "steps": build_se_steps(rng, e, pl.get("plan", pl.get("modes"))),
+        steps_ = build_se_steps(rng, e, pl.get("plan", pl.get("modes")))
+        if pl.get("zero"):
+            mm2 = e["m"] * e["m"]
+            for st in steps_:
+                if st.get("custom") is not None:
+                    st["custom"] = [0.0] * len(st["custom"]) if pl["zero"] == "all" else [0.0] * mm2 + list(rand_wmats(rng, e["ns"], e["m"]))[mm2:]
+        c = {"exp": pl["exp"], "steps": steps_,
              "v": rand_point(rng, e, rng.random() < 0.5), "h": [dy(rng, -1, 1, 16) for _ in range(e["nv"])]}
         cases.append(c)
     return cases
 
 
 def sub_se_qt(ctx):
-    cases = gen_se_qt(ctx, ctx.n(60, 600))
+    cases = gen_se_qt(ctx, ctx.n(48, 600))
     ctx.sample("se_qt", {k: (v if k != "steps" else [dict(s, q=s["q"][:4], custom=None) for s in v]) for k, v in cases[1].items()})
     ctx.run_cases("se_qt", chk_se_qt, cases)
 
@@ -688,10 +742,11 @@ def sub_se_qt(ctx):
 def in_band(ps, qs):
     """any clipping decision within the ambiguity band of its threshold?"""
     for p, q in zip(ps, qs):
-        if abs(q - EPS) < 1e-12:
+        # EXACTLY at a threshold (q == eps_q or p == eps_p as floats) is a deterministic decision and IS compared
+        if q != EPS and abs(q - EPS) < 1e-12:
             return True
         if q >= EPS:
-            if abs(p - EPS) < 1e-12:
+            if p != EPS and abs(p - EPS) < 1e-12:
                 return True
             pr = max(p, EPS)
             if abs(q / pr - EPS) < 1e-12:
@@ -738,12 +793,17 @@ def chk_re_callables(ctx, case):
     band = in_band(fl(p), case["q"])
     region = "clipped" if any(pp <= EPS and qq >= EPS for pp, qq in zip(fl(p), case["q"])) else "unclipped"
     ctx.count("re_callables", key=("rec", ns, mm, nv, tuple(case["v"]), tuple(case["q"])), nontrivial=(not band and N >= 4 and nv >= 2),
-              label="m%d-%s-%s%s" % (mm, "w" if case.get("w") is not None else "I", region, "-inband" if band else ""))
+              label="m%d-%s-%s%s" % (mm, wlab(case.get("w")), region, "-inband" if band else ""))
     if band:
         return
     mval, mag = ln_sum(c, a)
     if abs(f0 - mval) > TOL * (1.0 + mag):
         ctx.violation("re_callables", site + ".value", "value", "value %r, model terms give %r" % (f0, mval), case)
+    else:
+        # candidates for the in-Coq evaluation of the logarithms (ln_coq_check)
+        lst = getattr(ctx, "_ln_cases", None)
+        if lst is not None and len(lst) < ctx.n(4, 60) and any(ci != 0 for ci in c):
+            lst.append({"c": [str(x) for x in c], "a": [str(x) for x in a], "f": float(f0).hex(), "mag": mag, "case": case})
     if not vec_close(g0, mg, TOL):
         ctx.violation("re_callables", site + ".gradient", "value", "gradient %s model %s" % (g0[:4], [float(x) for x in mg[:4]]), case)
     if not vec_close(H0, mh, TOL):
@@ -768,9 +828,11 @@ def gen_re_callables(ctx, n):
         q = [x for j in range(ns) for x in rand_q(rng, mm, rng.choice([10, 64, 100, 1000]))]
         if rng.random() < 0.15:
             q[rng.randrange(N)] = 5e-11                    # below eps_q, not zero
+        if rng.random() < 0.1:
+            q[rng.randrange(N)] = EPS                      # exactly at the threshold eps_q
         c = {"ns": ns, "m": mm, "nv": nv, "A": A, "b": b, "q": q, "v": v, "w": None, "G": None, "HP": None, "via_setter": rng.random() < 0.3}
         if rng.random() < 0.6:
-            c["w"] = [dy(rng, 1, 40, 8) for _ in range(ns)]
+            c["w"] = rand_wvec(rng, ns)
         r = rng.random()
         if r < 0.2:
             c["G"] = [dy(rng, -2, 2, 8) for _ in range(N * nv)]
@@ -780,10 +842,60 @@ def gen_re_callables(ctx, n):
     return cases
 
 
+def coq_real(fr):
+    fr = Fraction(fr)
+    return "(IZR (%d) / IZR %d)" % (fr.numerator, fr.denominator)
+
+
+def ln_coq_check(ctx, lst):
+    """the relative-entropy VALUE with the logarithm evaluated INSIDE Coq: for each recorded case the goal
+         Rabs (sum_i c_i * ln a_i - value reported by quara) <= 1e-9 (1 + sum |c_i ln a_i|)
+    (c_i, a_i = the exact rationals the extracted model reports, theorem C12_re_value_terms; the value as its exact dyadic) is
+    proved by coq-interval's `interval` tactic (100-bit floating-point interval arithmetic, no trust in Python's decimal ln)"""
+    import os, re, subprocess
+    import runner
+    if not lst:
+        return
+    d = os.path.join(getattr(ctx, "scratch", os.path.join(runner.V, "build", ctx.prop_id)), "ln")
+    os.makedirs(d, exist_ok=True)
+    alive = list(range(len(lst)))
+    for attempt in range(4):
+        lines = ["From Coq Require Import Reals.", "From Interval Require Import Tactic.", "Open Scope R_scope.", ""]
+        pos = {}
+        for i in alive:
+            r = lst[i]
+            terms = " + ".join("%s * ln %s" % (coq_real(ci), coq_real(ai)) for ci, ai in zip(r["c"], r["a"]) if Fraction(ci) != 0)
+            tol = Fraction(1, 10 ** 9) * (1 + Fraction(*float(r["mag"]).as_integer_ratio()))
+            pos[len(lines) + 1] = i
+            lines.append("Lemma ln_case_%d : Rabs (%s - %s) <= %s." % (i, terms, coq_real(Fraction(*float.fromhex(r["f"]).as_integer_ratio())), coq_real(tol)))
+            lines.append("Proof. interval with (i_prec 100). Qed.")
+        src = os.path.join(d, "LnCases.v")
+        open(src, "w").write("\n".join(lines) + "\n")
+        r_ = subprocess.run(["timeout", "300", "coqc", src], capture_output=True, text=True, cwd=d)
+        if r_.returncode == 0:
+            break
+        m_ = re.search(r"line (\d+), characters", r_.stdout + r_.stderr)
+        bad = None
+        if m_:
+            ln = int(m_.group(1))
+            bad = pos.get(ln, pos.get(ln - 1))
+        if bad is None:
+            ctx.violation("re_callables", "ln_coq_check", "coq-interval-run-failed", (r_.stdout + r_.stderr)[-300:], {"n": len(lst)}, no_input=True)
+            return
+        ctx.violation("re_callables", "WeightedRelativeEntropy.value", "value-vs-coq-interval-ln",
+                      "Coq (interval, 100 bits) refutes |sum c_i ln a_i - value| <= 1e-9 (1 + mag) for value %r" % float.fromhex(lst[bad]["f"]), lst[bad]["case"])
+        alive.remove(bad)
+    for i in alive:
+        ctx.count("re_callables", key=("lncoq", i, lst[i]["f"]), nontrivial=True, label="ln-inside-coq")
+
+
 def sub_re_callables(ctx):
     cases = gen_re_callables(ctx, ctx.n(60, 600))
     ctx.sample("re_callables", cases[0])
+    ctx._ln_cases = []
     ctx.run_cases("re_callables", chk_re_callables, cases)
+    lst, ctx._ln_cases = ctx._ln_cases, None
+    ln_coq_check(ctx, lst)
 
 
 # ================================================================== relative entropy through the tomography configuration
@@ -837,7 +949,7 @@ def chk_re_qt(ctx, case):
             band = in_band(fl(p), q)
             inside = min(fl(p)) > 0.05
             ctx.count("re_qt", key=("reqt", case["exp"], k, tuple(case["v"]), tuple(q), kind, None if ws is None else tuple(ws)),
-                      nontrivial=not band, label="%s-%s-%s-%s%s%s" % (case["exp"].split("-")[0], kind, "w" if ws is not None else "I", "inside" if inside else "outside", "-inband" if band else "",
+                      nontrivial=not band, label="%s-%s-%s-%s%s%s" % (case["exp"].split("-")[0], kind, wlab(ws), "inside" if inside else "outside", "-inband" if band else "",
                                                                       "" if step.get("opt", "new") == "new" else "-%s-option" % step["opt"]))
             gw, _ = re_state(G); fw, few = re_state(Fs)
             if not gw:
@@ -929,6 +1041,10 @@ WITNESS_RE = [
     {"exp": "qst-2-T", "ctor": False, "steps": [("option", True), ("setter", True), ("option", None, "same")]},
     {"exp": "povmt-3-F", "ctor": False, "steps": [("option", False), ("setter", True), ("option", None, "same")]},
     {"exp": "qst-2-F", "ctor": True, "steps": [("option", True), ("option", None, "same"), ("option", None, "equal")]},
+    # boundary values of the weights: an exact 0.0 (a schedule excluded from the fit), via option / setter / constructor
+    {"exp": "qst-2-T", "ctor": False, "zero": True, "steps": [("option", True)]},
+    {"exp": "povmt-3-F", "ctor": False, "zero": True, "steps": [("option", False), ("setter", True)]},
+    {"exp": "qpt-2-F", "ctor": True, "zero": True, "steps": [("option", True), ("setter", True)]},
 ]
 
 
@@ -963,21 +1079,199 @@ def gen_re_qt(ctx, n):
                 else:
                     d["oid"] = next_oid; next_oid += 1
             else:
-                d["w"] = [dy(rng, 1, 40, 8) for _ in range(ns)] if has_w else None
+                d["w"] = rand_wvec(rng, ns) if has_w else None
                 if kind == "option":
                     d["oid"] = next_oid; next_oid += 1
+            if pl.get("zero") and d["w"] is not None:
+                d["w"] = [dy(rng, 1, 40, 8) for _ in range(ns)]; d["w"][rng.randrange(ns)] = 0.0
             if kind == "option":
                 last = d
             steps.append(d)
-        cases.append({"exp": pl["exp"], "ctor_w": [dy(rng, 1, 40, 8) for _ in range(ns)] if pl["ctor"] else None, "steps": steps,
+        cases.append({"exp": pl["exp"], "ctor_w": rand_wvec(rng, ns) if pl["ctor"] else None, "steps": steps,
                       "v": rand_point(rng, e, rng.random() < 0.35), "h": [dy(rng, -1, 1, 16) for _ in range(e["nv"])]})
     return cases
 
 
 def sub_re_qt(ctx):
-    cases = gen_re_qt(ctx, ctx.n(50, 500))
+    cases = gen_re_qt(ctx, ctx.n(42, 500))
     ctx.sample("re_qt", {k: (v if k != "steps" else [dict(s, q=s["q"][:4]) for s in v]) for k, v in cases[0].items()})
     ctx.run_cases("re_qt", chk_re_qt, cases)
+
+
+# ================================================================== schedules with DIFFERENT numbers of outcomes
+SITE_MIX_GEN = "ProbabilityBasedLossFunction.set_func_prob_dists_from_standard_qt"
+SITE_MIX_FAST = "StandardQTomographyBasedWeighted*.set_prob_dists_q"
+MIX_EXPS = {          # name -> (type, outcome counts of the tester POVMs)
+    "mqst-322": ("qst", [3, 2, 2]), "mqst-243": ("qst", [2, 4, 3]), "mqst-25": ("qst", [2, 5]),
+    "mqpt-32": ("qpt", [3, 2]), "mqpt-24": ("qpt", [2, 4]), "mqmpt-23": ("qmpt", [2, 3]),
+}
+_MIX = {}
+
+
+def get_mix_exp(name, para):
+    key = (name, para)
+    if key in _MIX:
+        return _MIX[key]
+    w = quiet()
+    try:
+        from quara.objects.composite_system_typical import generate_composite_system
+        from quara.objects.tester_typical import generate_tester_states, generate_tester_povms
+        from quara.objects.state import State
+        from quara.objects.gate import Gate
+        from quara.objects.mprocess import MProcess
+        from quara.protocol.qtomography.standard.standard_qst import StandardQst
+        from quara.protocol.qtomography.standard.standard_qpt import StandardQpt
+        from quara.protocol.qtomography.standard.standard_qmpt import StandardQmpt
+        typ, ks = MIX_EXPS[name]
+        c_sys = generate_composite_system("qubit", 1)
+        std = generate_tester_povms(c_sys, ["x", "y", "z"])
+        povms = [std[i % 3] if k == 2 else kpovm(c_sys, k, i) for i, k in enumerate(ks)]
+        states = generate_tester_states(c_sys, ["x0", "y0", "z0", "z1"])
+        s2 = np.sqrt(2)
+        if typ == "qst":
+            qt = StandardQst(povms, on_para_eq_constraint=para, schedules="all")
+            obj = State(c_sys, np.array([1, 0, 0, 0]) / s2, on_para_eq_constraint=para)
+        elif typ == "qpt":
+            qt = StandardQpt(states, povms, on_para_eq_constraint=para, schedules="all")
+            obj = Gate(c_sys, np.diag([1.0, 0, 0, 0]), on_para_eq_constraint=para)
+        else:
+            qt = StandardQmpt(states, povms, num_outcomes=2, on_para_eq_constraint=para, schedules="all")
+            obj = MProcess(c_sys, [np.diag([0.5, 0, 0, 0])] * 2, on_para_eq_constraint=para)
+        A = np.array(qt.calc_matA(), dtype=np.float64); b = np.array(qt.calc_vecB(), dtype=np.float64)
+        sizes = [qt.num_outcomes(j) for j in range(qt.num_schedules)]
+        assert sum(sizes) == A.shape[0] and len(set(sizes)) > 1
+        e = {"qt": qt, "A": A, "b": b, "sizes": sizes, "nv": qt.num_variables, "v0": np.array(obj.to_var(), dtype=np.float64)}
+        _MIX[key] = e
+        return e
+    finally:
+        w.__exit__(None, None, None)
+
+
+def chk_mixed_counts(ctx, case):
+    """all four loss classes on experiments whose schedules have DIFFERENT numbers of outcomes: value / gradient / Hessian =
+    sum over schedules of the one-schedule model (ns = 1, m = that schedule's outcome count) on the schedule's own rows of
+    matA, vecB, data and weights; fast = generic"""
+    from quara.loss_function.weighted_probability_based_squared_error import (
+        WeightedProbabilityBasedSquaredError, WeightedProbabilityBasedSquaredErrorOption)
+    from quara.loss_function.standard_qtomography_based_weighted_probability_based_squared_error import (
+        StandardQTomographyBasedWeightedProbabilityBasedSquaredError, StandardQTomographyBasedWeightedProbabilityBasedSquaredErrorOption)
+    from quara.loss_function.weighted_relative_entropy import WeightedRelativeEntropy, WeightedRelativeEntropyOption
+    from quara.loss_function.standard_qtomography_based_weighted_relative_entropy import (
+        StandardQTomographyBasedWeightedRelativeEntropy, StandardQTomographyBasedWeightedRelativeEntropyOption)
+    m = ctx.get_model()
+    e = get_mix_exp(case["exp"], case["para"]); qt = e["qt"]; sizes = e["sizes"]; nv = e["nv"]; ns = len(sizes)
+    off = [sum(sizes[:j]) for j in range(ns + 1)]
+    v = np.array(case["v"], dtype=np.float64)
+    qs = [case["q"][off[j]:off[j + 1]] for j in range(ns)]
+    data = [(int(case["nd"][j]), np.array(qs[j], dtype=np.float64)) for j in range(ns)]
+    mode = case["mode"]; fam = case["family"]
+    Aj = [fl(e["A"][off[j]:off[j + 1]]) for j in range(ns)]; bj = [fl(e["b"][off[j]:off[j + 1]]) for j in range(ns)]
+    ctx.count("mixed_counts", key=("mix", case["exp"], case["para"], fam, mode, tuple(case["v"]), tuple(case["q"])), nontrivial=True,
+              label="%s-%s-%s" % (case["exp"], fam, MODES.get(mode, mode)))
+    wq = quiet()
+    try:
+        if fam == "se":
+            # weights the mode denotes, per schedule (each with its own size)
+            if mode == 0:
+                Ws = [None] * ns
+            elif mode == 1:
+                Ws = [case["custom"][j] for j in range(ns)]
+            else:
+                Ws = []
+                for j in range(ns):
+                    st, W = m_inv_weight(m, mode in (3, 4), sizes[j], case["nd"][j], qs[j])
+                    if st == "err":
+                        ctx.violation("mixed_counts", SITE_SE_MODE, "model-mismatch:certificate", "inverse certificate failed (code %s)" % W, case)
+                        return
+                    Ws.append([float(x) for x in W])
+            sv = Fraction(0); sg = [Fraction(0)] * nv; sh = [Fraction(0)] * (nv * nv)
+            for j in range(ns):
+                a_, g_, h_ = m_se(m, 1, sizes[j], nv, Aj[j], bj[j], qs[j], case["v"], Ws[j])
+                sv += a_; sg = [x + y for x, y in zip(sg, g_)]; sh = [x + y for x, y in zip(sh, h_)]
+            wl = None if mode != 1 else [np.array(case["custom"][j], dtype=np.float64).reshape(sizes[j], sizes[j]) for j in range(ns)]
+            res = {}
+            for fast, cls, ocls in ((False, WeightedProbabilityBasedSquaredError, WeightedProbabilityBasedSquaredErrorOption),
+                                    (True, StandardQTomographyBasedWeightedProbabilityBasedSquaredError, StandardQTomographyBasedWeightedProbabilityBasedSquaredErrorOption)):
+                try:
+                    obj = cls(nv)
+                    obj.set_from_standard_qtomography_option_data(qt, ocls(mode_weight=MODES[mode], weights=wl), data, True, not fast)
+                    val = float(obj.value(v)); grad = fl(obj.gradient(v)); hess = None if fast else fl(obj.hessian(v))
+                    if fast:
+                        val2 = float(obj.value(v, validate=True))
+                        if val2 != val:
+                            ctx.violation("mixed_counts", SITE_MIX_FAST, "validate-changes-value", "value(validate=True) %r != value %r" % (val2, val), case)
+                    res[fast] = (val, grad, hess)
+                except (ValueError, IndexError) as exc:
+                    ctx.violation("mixed_counts", SITE_MIX_FAST if fast else SITE_MIX_GEN,
+                                  "mixed-outcome-counts-fast-path-raises" if fast else "mixed-outcome-counts-equal-slices",
+                                  "%s squared error with schedule outcome counts %s raises %s: %s (defining formula gives %r)" % (
+                                      "fast" if fast else "generic", sizes, type(exc).__name__, str(exc)[:120], float(sv)), case)
+            if False in res:
+                val, grad, hess = res[False]
+                if not (rel_close(val, sv, 1e-6) and vec_close(grad, sg, 1e-6) and vec_close(hess, sh, 1e-6)):
+                    ctx.violation("mixed_counts", SITE_MIX_GEN, "mixed-outcome-counts-equal-slices",
+                                  "generic squared error, outcome counts %s: value %r, sum over schedules of the defining formula %r" % (sizes, val, float(sv)), case)
+            if False in res and True in res:
+                if not (rel_close(res[True][0], res[False][0], 1e-7) and vec_close(res[True][1], res[False][1], 1e-7)):
+                    ctx.violation("mixed_counts", SITE_MIX_FAST, "fast-neq-generic", "fast %r generic %r (outcome counts %s)" % (res[True][0], res[False][0], sizes), case)
+        else:
+            ws = case.get("w")
+            p = e["A"] @ v + e["b"]
+            if in_band(fl(p), case["q"]):
+                return
+            cs = []; as_ = []; sg = [Fraction(0)] * nv; sh = [Fraction(0)] * (nv * nv)
+            for j in range(ns):
+                r = m.call("c12.re", [1, sizes[j], nv, 0 if ws is None else 1], [EPS, EPS] + Aj[j] + bj[j] + qs[j] + list(case["v"]) + ([] if ws is None else [ws[j]]))
+                c_, a_, g_, h_ = m_re_parse(r, sizes[j], nv)
+                cs += c_; as_ += a_; sg = [x + y for x, y in zip(sg, g_)]; sh = [x + y for x, y in zip(sh, h_)]
+            sval, smag = ln_sum(cs, as_)
+            res = {}
+            for fast, cls, ocls in ((False, WeightedRelativeEntropy, WeightedRelativeEntropyOption),
+                                    (True, StandardQTomographyBasedWeightedRelativeEntropy, StandardQTomographyBasedWeightedRelativeEntropyOption)):
+                try:
+                    obj = cls(nv)
+                    obj.set_from_standard_qtomography_option_data(qt, ocls("identity" if ws is None else "custom", weights=None if ws is None else list(ws)), data, True, not fast)
+                    val = float(obj.value(v)); grad = fl(obj.gradient(v)); hess = None if fast else fl(obj.hessian(v))
+                    res[fast] = (val, grad, hess)
+                except (ValueError, IndexError) as exc:
+                    ctx.violation("mixed_counts", SITE_MIX_FAST if fast else SITE_MIX_GEN,
+                                  "mixed-outcome-counts-fast-path-raises" if fast else "mixed-outcome-counts-equal-slices",
+                                  "%s relative entropy with schedule outcome counts %s raises %s: %s (defining formula gives %r)" % (
+                                      "fast" if fast else "generic", sizes, type(exc).__name__, str(exc)[:120], sval), case)
+            if False in res:
+                val, grad, hess = res[False]
+                if abs(val - sval) > 1e-8 * (1.0 + smag) or not vec_close(grad, sg, 1e-8) or not vec_close(hess, sh, 1e-8):
+                    ctx.violation("mixed_counts", SITE_MIX_GEN, "mixed-outcome-counts-equal-slices",
+                                  "generic relative entropy, outcome counts %s: value %r, sum_j w_j sum_x q ln(q/p) = %r" % (sizes, val, sval), case)
+            if False in res and True in res:
+                if abs(res[True][0] - res[False][0]) > 1e-8 * (1.0 + smag) or not vec_close(res[True][1], res[False][1], 1e-8):
+                    ctx.violation("mixed_counts", SITE_MIX_FAST, "fast-neq-generic", "fast %r generic %r (outcome counts %s)" % (res[True][0], res[False][0], sizes), case)
+    finally:
+        wq.__exit__(None, None, None)
+
+
+def sub_mixed_counts(ctx):
+    rng = ctx.rng
+    names = sorted(MIX_EXPS)
+    cases = []
+    for i in range(ctx.n(14, 160)):
+        name = names[i % len(names)] if not ctx.quick else ["mqst-322", "mqst-243", "mqpt-32", "mqmpt-23", "mqst-25"][i % 5]
+        para = bool((i // len(names)) % 2) if not ctx.quick else bool(i % 2)
+        e = get_mix_exp(name, para); sizes = e["sizes"]; ns = len(sizes)
+        fam = "se" if i % 3 != 2 else "re"
+        nd = [rng.choice([100, 400, 1000, 10000]) for _ in range(ns)]
+        q = [x for j in range(ns) for x in rand_q(rng, sizes[j], nd[j])]
+        c = {"exp": name, "para": para, "family": fam, "nd": nd, "q": q, "v": rand_point(rng, e, fam == "se" and rng.random() < 0.5)}
+        if fam == "se":
+            c["mode"] = rng.choice([0, 1, 2, 3, 4])
+            if c["mode"] == 1:
+                c["custom"] = [[x for row in rand_wmat(rng, sizes[j]) for x in row] for j in range(ns)]
+        else:
+            c["mode"] = "re"
+            c["w"] = rand_wvec(rng, ns) if rng.random() < 0.6 else None
+        cases.append(c)
+    ctx.sample("mixed_counts", {k: (v if k not in ("q", "custom") else None) for k, v in cases[0].items()})
+    ctx.run_cases("mixed_counts", chk_mixed_counts, cases)
 
 
 # ================================================================== plain functions
@@ -1104,6 +1398,10 @@ def gen_fns(ctx, n):
             p[rng.randrange(mm)] = 1e-14 * rng.choice([-1, 1])        # within atol of 0
         if rng.random() < 0.1:
             k = rng.randrange(mm); q[k] = 1.5e-10; p[k] = 2.0         # ratio clipped: q/p < eps_p
+        if rng.random() < 0.12:
+            q[rng.randrange(mm)] = EPS                                # exactly at the threshold eps_q (branch "q >= eps_q" taken)
+        if rng.random() < 0.12:
+            p[rng.randrange(mm)] = EPS                                # exactly at the threshold eps_p
         cases.append({"kind": "entropy", "m": mm, "nv": nv, "q": q, "p": p, "G": [dy(rng, -2, 2, 8) for _ in range(mm * nv)],
                       "HP": [dy(rng, -1, 1, 4) for _ in range(nv * nv * mm)]})
     for i in range(max(8, n // 2)):
@@ -1158,12 +1456,105 @@ def sub_simple_quadratic(ctx):
 
 
 SUBS = [("se_callables", sub_se_callables), ("se_qt", sub_se_qt), ("re_callables", sub_re_callables), ("re_qt", sub_re_qt),
-        ("fns", sub_fns), ("simple_quadratic", sub_simple_quadratic)]
+        ("mixed_counts", sub_mixed_counts), ("fns", sub_fns), ("simple_quadratic", sub_simple_quadratic)]
 FNS = {"se_callables": chk_se_callables, "se_qt": chk_se_qt, "re_callables": chk_re_callables, "re_qt": chk_re_qt,
-       "fns": chk_fns, "simple_quadratic": chk_simple_quadratic}
+       "mixed_counts": chk_mixed_counts, "fns": chk_fns, "simple_quadratic": chk_simple_quadratic}
+
+
+# ================================================================== option constructors (decision table, executed)
+def chk_options(ctx, case):
+    """the option constructors on accepted / unknown / None mode strings, with and without weights: accepted exactly when the
+    table of Model/C12_Dispatch.v (option_accepts) says so, and the stored mode is the table's"""
+    from quara.loss_function.weighted_probability_based_squared_error import WeightedProbabilityBasedSquaredErrorOption
+    from quara.loss_function.standard_qtomography_based_weighted_probability_based_squared_error import (
+        StandardQTomographyBasedWeightedProbabilityBasedSquaredErrorOption)
+    from quara.loss_function.weighted_relative_entropy import WeightedRelativeEntropyOption
+    from quara.loss_function.standard_qtomography_based_weighted_relative_entropy import StandardQTomographyBasedWeightedRelativeEntropyOption
+    se_modes = list(MODES.values()); re_modes = ["identity", "custom"]
+    for cls, modes, wts_ in ((WeightedProbabilityBasedSquaredErrorOption, se_modes, [np.eye(2)] * 3),
+                             (StandardQTomographyBasedWeightedProbabilityBasedSquaredErrorOption, se_modes, [np.eye(2)] * 3),
+                             (WeightedRelativeEntropyOption, re_modes, [1.0, 2.0, 0.0]),
+                             (StandardQTomographyBasedWeightedRelativeEntropyOption, re_modes, [1.0, 2.0, 0.0])):
+        for hw in (False, True):
+            mw = case["mode"]
+            eff = "custom" if hw else mw
+            expect = eff if eff in modes else None            # None = ValueError
+            try:
+                o = cls(mode_weight=mw, weights=wts_ if hw else None); got = o.mode_weight
+            except ValueError:
+                got = None
+            ctx.count("options", key=("opt", cls.__name__, mw, hw), nontrivial=True, label="%s-%s" % ("accepted" if expect else "rejected", "w" if hw else "nw"))
+            if got != expect:
+                ctx.violation("options", cls.__name__ + ".__init__", "option-table",
+                              "mode_weight=%r, weights %s: constructor gives %r, decision table %r" % (mw, "given" if hw else "None", got, expect), case)
+
+
+def sub_options(ctx):
+    cases = [{"mode": x} for x in list(MODES.values()) + [None, "", "Identity", "inverse_covariance", "unbiased_sample_covariance", "custom "]]
+    ctx.sample("options", cases[0])
+    ctx.run_cases("options", chk_options, cases)
+
+
+SUBS.append(("options", sub_options)); FNS["options"] = chk_options
+
+
+# ================================================================== translator tie
+def regen_tables(ctx):
+    """translator tie (protocol of flow.regen_check, with this property's own translator gen/c12_py2coq.py): regenerate the
+    Gallina text of the two option constructors, the two _set_weights_by_mode dispatchers (incl. sample / unbiased selection and
+    the slice bounds of the placement) and matrix_util.replace_prob_dist from the CURRENT source, compile it, and re-check
+    coq/gen/C12_Equiv.v (regenerated = hand-written tables / model for ALL inputs; every accepted mode installs weights).
+    returns (ok, info)"""
+    import os, re, shutil, subprocess, sys
+    import runner
+    V = runner.V
+    scratch = os.path.join(getattr(ctx, "scratch", os.path.join(V, "build", ctx.prop_id)), "gen")
+    os.makedirs(scratch, exist_ok=True)
+    gen_v = os.path.join(scratch, "Gen_c12_dispatch.v")
+    for stem in (gen_v[:-2], os.path.join(scratch, "C12_Equiv")):
+        for ext in (".vo", ".vos", ".vok", ".glob"):
+            try:
+                os.remove(stem + ext)
+            except OSError:
+                pass
+    equiv = os.path.join(V, "coq", "gen", "C12_Equiv.v")
+    src = open(equiv).read()
+    src_nc = re.sub(r"\(\*.*?\*\)", " ", src, flags=re.S)
+    thms = re.findall(r"^\s*Theorem\s+([\w']+)", src_nc, flags=re.M)
+    ctx.theorems = list(ctx.theorems) + [t for t in thms if t not in ctx.theorems]
+    ctx.obligations += len(thms)
+    r = subprocess.run([sys.executable, os.path.join(V, "gen", "c12_py2coq.py"), os.environ.get("VERIF_REPO", "/repo"), gen_v],
+                       capture_output=True, text=True, timeout=120)
+    if r.returncode != 0:
+        return False, {"theorem": thms[0], "error": "translator rejected the source (outside its subset): " + (r.stdout + r.stderr)[-600:]}
+    q = ["-Q", os.path.join(V, "coq", "theories"), "QV", "-Q", scratch, "QVGen"]
+    r = subprocess.run(["timeout", "300", "coqc"] + q + [gen_v], capture_output=True, text=True)
+    if r.returncode != 0:
+        return False, {"theorem": thms[0], "error": "regenerated tables do not compile: " + (r.stdout + r.stderr)[-600:]}
+    dst = os.path.join(scratch, "C12_Equiv.v")
+    shutil.copy(equiv, dst)
+    r = subprocess.run(["timeout", "600", "coqc"] + q + [dst], capture_output=True, text=True)
+    out = r.stdout + r.stderr
+    if r.returncode != 0:
+        m_ = re.search(r"line (\d+), characters", out)
+        thm = None
+        if m_:
+            upto = "\n".join(src.splitlines()[:int(m_.group(1))])
+            names = re.findall(r"^\s*(?:Theorem|Lemma)\s+([\w']+)", upto, flags=re.M)
+            thm = names[-1] if names else None
+        return False, {"theorem": thm, "error": out[-800:]}
+    blocks = runner.parse_assumptions(out)
+    bad = [a for closed, axs in blocks for a in axs if a not in runner.ALLOWED_AXIOMS and a.split(".")[-1] not in runner.ALLOWED_AXIOMS]
+    if len(blocks) != len(thms) or bad:
+        return False, {"theorem": thms[0], "error": "assumption gate on regenerated proofs: %d blocks / %d theorems, disallowed %s" % (len(blocks), len(thms), bad)}
+    for t, (closed, axs) in zip(thms, blocks):
+        ctx.axioms[t] = "closed" if closed else sorted(set(axs))
+    ctx.discharged += len(thms)
+    return True, {}
 
 
 def run(ctx):
+    import runner
     ctx.rule = ("seeded dyadic-rational inputs (floats exactly equal to the rationals the model receives): random forward models "
                 "A (ns*m x nv), offsets, variable points inside (all p > 0.05) and outside (some p <= 0, incl. exactly 0) the positive region, "
                 "empirical distributions counts/N with zero and sub-threshold entries, symmetric custom weight matrices / weight vectors, "
@@ -1176,7 +1567,25 @@ def run(ctx):
     ctx.assumptions = ["np.linalg.inv is an oracle: the inverse used by the model is computed exactly by the harness and CERTIFIED by the model (two-sided product = I) before placement",
                        "ln is a parameter of the relative-entropy model; model values are sum c_i ln a_i with exact rational c_i, a_i, evaluated with decimal (50 digits)",
                        "the forward model (matA, vecB) is read from the implementation (property C08 ties it to the objects)"]
-    flow.standard_run(ctx, SUBS)
+    # flow.standard_run with this property's own translator tie (flow.regen_check is bound to gen/py2coq.py)
+    ok, info = runner.check_props(ctx)
+    ok2, info2 = regen_tables(ctx)
+    if not ok2:
+        ok, info = False, info2
+        ctx.note("regenerated decision tables (coq/gen/C12_Equiv.v) not discharged: %s" % str(info2)[:400])
+        # the tie is broken: widen the differential sweep (thorough-size generators) to find a concrete failing input
+        ctx.n = lambda quick, thorough: max(quick, thorough // 5)
+    if not ok:
+        ctx.discharged = min(ctx.discharged, ctx.obligations - 1)
+    for name, fn in SUBS:
+        if ctx.only is None or name in ctx.only:
+            fn(ctx)
+    if not ok and not ctx.violations:
+        ctx.violation("theorems", "Props/%s.v" % ctx.prop_id, "theorem-broken:%s" % info.get("theorem"),
+                      "theorem %s no longer checks: %s" % (info.get("theorem"), info.get("error", "")[-400:]),
+                      {"theorem": info.get("theorem"), "error": info.get("error")}, no_input=True)
+    elif not ok:
+        ctx.note("theorem obligations not discharged: %s" % info)
 
 
 def replay(ctx, doc):
